@@ -46,6 +46,7 @@ Definition agrees (m : mres) (o : aout) : bool :=
   match m, o with
   | MRows ms, ARows rs => bag_same ms rs
   | MPanic, APanic => true
+  | MErr, AErr => true
   | _, _ => false
   end.
 Definition model_agrees (c : case) : bool :=
